@@ -143,6 +143,8 @@ class URI(object):
 
     def __setstate__(self, state):
         self.protocol, self.object, self.sockname, self.host, self.port = state
+        if self.protocol == "PYROMETA" and not isinstance(self.object, set):
+            self.object = set(self.object)  # some serializers turn the tag set into a list/tuple
 
 
 class _ExceptionWrapper(object):
